@@ -16,7 +16,18 @@ three parts, separated by the acquisition and the release of `Controller.comp_lo
 between them any other operation may happen — scheduler passes, task exits, other deliveries (also
 other split deliveries: several notifications can be in flight), kills, stage transitions.
 `inflight` lists the notifications whose handler has started and not yet ended, with the part that
-comes next.  No Mathlib.
+comes next.
+
+The same system carries one more environment event that `Ctrl.step` does not have:
+
+* `SOp.complete k` — the external stage-completion hook (`hooks/status.py::IsStageComplete`, polled by
+  `_observe_completionCheck(stage k)`) returned `True`: under `comp_lock` its closure fake-finishes the
+  components of stage k that are not staged in and calls `_stopComponents(components of stage k)` - what the
+  FAILED branch of `finishedCheck` does: `Ctrl.stopStage`.  (Before the repair
+  `fixes/C02-completion-hook-unstaged.diff` it called `_stopComponents` only, `Ctrl.stopComponents`: see
+  `Witness/C02`.)
+
+No Mathlib.
 -/
 namespace St4sd.Ctrl
 
@@ -52,6 +63,7 @@ inductive SOp
   | finPre (c : Nat)
   | finCrit (c : Nat)
   | finPost (c : Nat)
+  | complete (k : Nat)
   deriving DecidableEq, Repr
 
 def sinit : SSt := { base := init }
@@ -74,6 +86,7 @@ def sstep (wf : Wf) (s : SSt) : SOp → SSt
     if (c, Phase.waitRecord) ∈ s.inflight then
       { base := finRecord s.base c, inflight := s.inflight.erase (c, .waitRecord) }
     else s
+  | .complete k => { s with base := stopStage wf s.base k }
 
 def srun (wf : Wf) (ops : List SOp) : SSt := ops.foldl (sstep wf) sinit
 
@@ -85,5 +98,28 @@ def sstepR (wf : Wf) (a : SSt × Reports) (op : SOp) : SSt × Reports :=
    | _ => a.2)
 
 def srunR (wf : Wf) (ops : List SOp) : SSt × Reports := ops.foldl (sstepR wf) (sinit, [])
+
+/-! ## the unsplit system with the completion hook (property C02)
+
+`hrun` is the transition system of `Ctrl.step` plus the stage-completion hook (`HOp.hook k` =
+`SOp.complete k` = `stopStage`).  Before the repair the closure called `_stopComponents` only, which sends
+`finish(SHUTDOWN)` also to components the controller never subscribed to (not yet staged in): they became
+SHUTDOWN but were never recorded in `comp_done` (`Witness/C02`). -/
+
+inductive HOp
+  | op (o : Op)
+  | hook (k : Nat)
+  deriving DecidableEq, Repr
+
+def hstep (wf : Wf) (s : St) : HOp → St
+  | .op o => step wf s o
+  | .hook k => stopStage wf s k
+
+def hrun (wf : Wf) (ops : List HOp) : St := ops.foldl (hstep wf) init
+
+/-- `hrun` embeds into the split system -/
+def HOp.toS : HOp → SOp
+  | .op o => .base o
+  | .hook k => .complete k
 
 end St4sd.Ctrl
